@@ -150,7 +150,11 @@ open PathFs in
 def s08Case (variant kind : String) (pre : Option (List Nat)) (src : List Nat) : S08Case :=
   let base : Ents := [(["work"], .dir), (["work", "s.asm"], .file 1), (["work", "sub"], .dir)]
   let mk (ents : Ents) (data : List (Nat × List Nat)) : PathFs.Fs := { ents := ents, data := (1, src) :: data, cwd := ["work"] }
-  if kind == "devfull" then
+  if variant == "deep" then
+    -- `n` is a link to the working directory (`ln -s . n`); the destination is `n/n/…/n`
+    { fs := mk (base ++ [(["work", "n"], .link ⟨false, []⟩)]) [],
+      dest := ⟨false, List.replicate (kind.toNat?.getD 0) "n"⟩, name := "n" }
+  else if kind == "devfull" then
     -- a private character device with /dev/full's numbers
     { fs := mk (base ++ [(["work", "devfull"], .dev)]) [], dest := ⟨false, ["devfull"]⟩, name := "devfull" }
   else if kind == "nodir" then
@@ -173,11 +177,16 @@ def s08Case (variant kind : String) (pre : Option (List Nat)) (src : List Nat) :
     match pre with
     | none => { fs := mk (base ++ lnk) [], dest := dest, name := name }
     | some b =>
-      let other : Ents := if variant == "hard" then [(["work", "sub", "other-name.lc3"], .file 2)] else []
+      let other : Ents :=
+        if variant == "hard" then [(["work", "sub", "other-name.lc3"], .file 2)]
+        -- `stale:` the name the temporary file will get (the model's process id is 1) exists: a
+        -- symbolic link to the destination
+        else if variant == "stale" then [(["work", tmpName 1], .link ⟨false, ["out.lc3"]⟩)]
+        else []
       { fs := mk (base ++ lnk ++ [(fileLoc, .file 2)] ++ other) [(2, b)], dest := dest, name := name }
 
-/-- `S08 flag src dest [lim]` with dest ∈ `[nu8:|long:|lnkrel:|lnkabs:|hard:](absent | pre:<hex>) |
-devfull | nodir` and `lim` ∈ `- | <hex byte count>` (a file size limit in force while
+/-- `S08 flag src dest [lim]` with dest ∈ `[nu8:|long:|lnkrel:|lnkabs:|hard:|stale:](absent | pre:<hex>) |
+devfull | nodir | deep:<components>` and `lim` ∈ `- | <hex byte count>` (a file size limit in force while
 `lace compile` runs). The model is `PathFs.compileP` (`write_all_or_nothing` statement by statement,
 every path resolved by every operation) on the file system the harness sets up; the answer is
 computed from the resulting file system exactly as `obs_c08` computes it from the real one: exit
@@ -187,11 +196,11 @@ longer reads the old contents. -/
 def handleS08 (toks : List String) : String :=
   let go (so src dest : String) (lim : Option (Option Nat)) : String :=
     let (variant, kind) : String × String :=
-      match ["nu8:", "long:", "lnkrel:", "lnkabs:", "hard:"].find? (fun pre => dest.startsWith pre) with
+      match ["nu8:", "long:", "lnkrel:", "lnkabs:", "hard:", "stale:", "deep:"].find? (fun pre => dest.startsWith pre) with
       | some pre => ((pre.dropEnd 1).toString, (dest.drop pre.length).toString)
       | none => ("", dest)
     let pre : Option (Option (List Nat)) :=
-      if kind == "absent" || kind == "devfull" || kind == "nodir" then some none
+      if kind == "absent" || kind == "devfull" || kind == "nodir" || variant == "deep" then some none
       else if kind.startsWith "pre:" then (parseBytes (kind.drop 4).toString).map some
       else none
     let special := kind == "devfull" || kind == "nodir"
@@ -223,8 +232,13 @@ def handleS08 (toks : List String) : String :=
           | some b =>
             if variant == "hard" && PathFs.readPath r.2 fuel ⟨false, ["sub", "other-name.lc3"]⟩ != .bytes b then 1 else 0
           | none => 0
-        let extra := stray ["work"] ["s.asm", "sub", c.name] +
-          stray ["work", "sub"] ["link.lc3", "real.lc3", "other-name.lc3"] + otherChanged
+        -- the links the harness prepared (`stale:` the temporary name, `deep:` `n`) must still be links
+        let isLink (l : PathFs.Loc) : Bool := match PathFs.entryAt r.2.ents l with | some (.link _) => true | _ => false
+        let linksGone : Nat :=
+          (if variant == "stale" && !isLink ["work", PathFs.tmpName 1] then 1 else 0) +
+          (if variant == "deep" && !isLink ["work", "n"] then 1 else 0)
+        let extra := stray ["work"] (["s.asm", "sub", c.name] ++ (if variant == "stale" then [PathFs.tmpName 1] else [])) +
+          stray ["work", "sub"] ["link.lc3", "real.lc3", "other-name.lc3"] + otherChanged + linksGone
         "M st=" ++ toString r.1 ++ " dest=" ++ after ++ " extra=" ++ toString extra
     | _, _, _, _, _ => "bad-request"
   match toks with
